@@ -2,6 +2,7 @@
 C08, part 2 — forwarding: TTL, ARP look-ups, host next hop, addressee (model: `Model/Forward.lean`).
 -/
 import PrimaiteModel.Model.Forward
+import PrimaiteModel.Model.Filter
 import PrimaiteModel.Gen.Forward
 namespace Primaite.Forward
 open Primaite.Route (findBestRoute)
@@ -374,23 +375,99 @@ theorem C08_host_accepts_only_own_address (nd : Node) (ifc : Iface) (f : Frame) 
       unfold ifaceWithIp at hw
       exact ⟨own, List.mem_of_find?_eq_some hw, by simpa using List.find?_some hw⟩
 
-/-- a router passes a frame up to its own software only for one of its own addresses
-(`check_send_frame_to_session_manager`); everything else goes to `process_frame`. -/
-theorem C08_router_software_only_own_address (fuel : Nat) (st : St) (n i : Nat) (f : Frame) (nd : Node) (ifc : Iface)
-    (hn : st.node? n = some nd) (hi : st.iface? n i = some ifc) (hon : nd.on = true)
-    (hacl : ((f.pl == .dataReq || f.pl == .dataRep) && !nd.flag) = false)
+/-- what lets a frame that is not for an own address through a router (powered on, first verdict permits) or a firewall
+(first verdict of the arrival port's list permits, arrival port external or internal, the second list chosen by the
+destination permits). -/
+def transitOk (nd : Node) (i : Nat) (pl : Pl) (dst : Ip) : Bool :=
+  match nd.fw with
+  | none => nd.on && !aclDenies nd i pl
+  | some acl => !aclDenies nd i pl && i != 2 && fwPermits acl (secondList nd i dst) pl
+
+/-- a router / firewall passes a frame up to its own software only for one of its own addresses
+(`check_send_frame_to_session_manager`); everything else that the verdicts permit goes to `process_frame`, after the
+source pair was learned. -/
+theorem C08_router_transit (fuel : Nat) (st : St) (n i : Nat) (f : Frame) (nd : Node) (ifc : Iface)
+    (hn : st.node? n = some nd) (hi : st.iface? n i = some ifc) (hok : transitOk nd i f.pl f.dstIp = true)
     (hnot : ifaceWithIp nd.ifaces f.dstIp = none) :
     routerRecv (fuel + 1) st n i f =
       routerProcess fuel (st.modNode n (fun nd => nd.addArp f.srcIp f.srcMac i)) n i f := by
-  simp only [routerRecv, hn, hi, hon, Bool.not_true, Bool.false_eq_true, if_false, hnot, hacl]
+  unfold transitOk at hok
+  cases hfw : nd.fw with
+  | none =>
+    simp only [hfw, Bool.and_eq_true, Bool.not_eq_true'] at hok
+    simp only [routerRecv, hn, hi, hfw, hok.1, hok.2, Option.isNone_none, Bool.not_true, Bool.and_false, Bool.false_eq_true,
+      if_false, hnot]
+  | some acl =>
+    simp only [hfw, Bool.and_eq_true, Bool.not_eq_true', bne_iff_ne, ne_eq] at hok
+    have h2 : (i == 2) = false := by simpa using hok.1.2
+    simp only [routerRecv, hn, hi, hfw, hok.1.1, hok.2, h2, Option.isNone_some, Bool.false_and, Bool.false_eq_true, if_false,
+      hnot, if_true]
 
-/-- a router whose ACL does not permit the service drops its frames before anything else happens (no ARP learning, no
-forwarding): "exchanges that every device on the path permits" is a real precondition. -/
-theorem C08_router_acl_denies_first (fuel : Nat) (st : St) (n i : Nat) (f : Frame) (nd : Node) (ifc : Iface)
-    (hn : st.node? n = some nd) (hi : st.iface? n i = some ifc)
+/-- the plain-router reading: powered on, the default ACL (ARP exempt, ICMP permitted, the service only with a rule). -/
+theorem C08_router_software_only_own_address (fuel : Nat) (st : St) (n i : Nat) (f : Frame) (nd : Node) (ifc : Iface)
+    (hn : st.node? n = some nd) (hi : st.iface? n i = some ifc) (hfw : nd.fw = none) (hon : nd.on = true)
+    (hacl : ((f.pl == .dataReq || f.pl == .dataRep) && !nd.flag) = false)
+    (hnot : ifaceWithIp nd.ifaces f.dstIp = none) :
+    routerRecv (fuel + 1) st n i f =
+      routerProcess fuel (st.modNode n (fun nd => nd.addArp f.srcIp f.srcMac i)) n i f :=
+  C08_router_transit fuel st n i f nd ifc hn hi (by simp [transitOk, aclDenies, hfw, hon, hacl]) hnot
+
+/-- a router or firewall whose first verdict denies the frame's class drops it before anything else happens (no ARP
+learning, no hand-over to software, no forwarding): "exchanges that every device on the path permits" is a real
+precondition.  On a firewall this includes ARP (no exemption). -/
+theorem C08_first_verdict_denies_first (fuel : Nat) (st : St) (n i : Nat) (f : Frame)
+    (hden : ∀ nd, st.node? n = some nd → aclDenies nd i f.pl = true) :
+    routerRecv (fuel + 1) st n i f = (st, f) := by
+  simp only [routerRecv]
+  split
+  · rename_i nd ifc hn hi
+    simp [hden nd hn]
+  · rfl
+
+theorem C08_router_acl_denies_first (fuel : Nat) (st : St) (n i : Nat) (f : Frame) (nd : Node) (_ifc : Iface)
+    (hn : st.node? n = some nd) (hfw : nd.fw = none)
     (hpl : f.pl = .dataReq ∨ f.pl = .dataRep) (hflag : nd.flag = false) :
     routerRecv (fuel + 1) st n i f = (st, f) := by
-  rcases hpl with h | h <;> simp [routerRecv, hn, hi, h, hflag]
+  apply C08_first_verdict_denies_first
+  intro nd' hn'
+  rw [hn] at hn'
+  have : nd' = nd := by simpa using hn'.symm
+  subst this
+  rcases hpl with h | h <;> simp [aclDenies, hfw, h, hflag]
+
+/-- a firewall's second verdict (the list chosen by the destination) denies: the source pair was learned, nothing else. -/
+theorem C08_firewall_second_verdict_drops (fuel : Nat) (st : St) (n i : Nat) (f : Frame) (nd : Node) (ifc : Iface)
+    (acl : List (Nat × Nat)) (hn : st.node? n = some nd) (hi : st.iface? n i = some ifc) (hfw : nd.fw = some acl)
+    (h1 : aclDenies nd i f.pl = false) (hi2 : (i == 2) = false)
+    (h2 : fwPermits acl (secondList nd i f.dstIp) f.pl = false) (hnot : ifaceWithIp nd.ifaces f.dstIp = none) :
+    routerRecv (fuel + 1) st n i f = (st.modNode n (fun nd => nd.addArp f.srcIp f.srcMac i), f) := by
+  simp only [routerRecv, hn, hi, hfw, h1, h2, hi2, Option.isNone_some, Bool.false_and, Bool.false_eq_true, if_false, hnot]
+
+/-- the port / rule-list tables of the firewall are those of C06's element model (`Model/Filter.lean`, itself tied to
+the source by `Gen/Filter.lean`): arrival port ↦ entry point ↦ rule list. -/
+def listOfAclId : Filter.AclId → Option Nat
+  | .extIn => some 0 | .extOut => some 1 | .intIn => some 2 | .intOut => some 3 | .dmzIn => some 4 | .dmzOut => some 5
+  | .router => none
+
+theorem C08_firewall_tables_match_filter :
+    (∀ i, ingressList i = (Filter.portEntry i).bind (fun e => listOfAclId (Filter.entryAcl e))) ∧
+    Filter.entryCalls .extIn = [.learn, .session, .entry .dmzIn, .entry .intIn] ∧
+    Filter.entryCalls .intOut = [.learn, .session, .entry .dmzIn, .entry .extOut] ∧
+    Filter.entryCalls .dmzOut = [.learn, .session, .lookup, .lookup, .entry .extOut, .entry .intIn] ∧
+    (∀ nd dst, secondList nd 0 dst = if inDmzNet nd dst then 4 else 2) ∧
+    (∀ nd dst, secondList nd 1 dst = if inDmzNet nd dst then 4 else 1) ∧
+    dmzSecondList Filter.extPort = some 1 ∧ dmzSecondList Filter.intPort = some 2 ∧ dmzSecondList Filter.dmzPort = none ∧
+    Filter.powerGuard .firewall = false ∧ Filter.powerGuard .router = true := by
+  refine ⟨?_, rfl, rfl, rfl, fun _ _ => rfl, fun _ _ => rfl, rfl, rfl, rfl, rfl, rfl⟩
+  intro i
+  unfold ingressList Filter.portEntry Filter.extPort Filter.intPort Filter.dmzPort
+  by_cases h0 : i = 0
+  · subst h0; rfl
+  · by_cases h1 : i = 1
+    · subst h1; rfl
+    · by_cases h2 : i = 2
+      · subst h2; rfl
+      · simp [h0, h1, h2]
 
 /-! ### non-vacuity: a concrete network (host A — host B on one link; A also has a default gateway) -/
 
